@@ -316,3 +316,73 @@ func mustMarshal(v interface{}) []byte {
 func describeCert(c *x509.Certificate) string {
 	return fmt.Sprintf("subject=%q issuer=%q serial=%s", c.Subject.String(), c.Issuer.String(), c.SerialNumber)
 }
+
+// reissueWithNegativeSerial returns a copy of leaf (issued by ca) whose serialNumber INTEGER has the high bit of its first
+// content octet set — a negative number for every DER decoder — re-signed with the CA's key. This is what a 20-octet
+// serial written without the leading zero octet looks like. The original first octet must be in 0x01..0x7f.
+func reissueWithNegativeSerial(ca *CA, leaf *x509.Certificate) *x509.Certificate {
+	tbs := append([]byte{}, leaf.RawTBSCertificate...)
+	// tbs = 30 LL.. { a0 03 02 01 02 } 02 L <serial> ...
+	i := 1
+	if tbs[i]&0x80 != 0 {
+		i += int(tbs[i]&0x7f) + 1
+	} else {
+		i++
+	}
+	if tbs[i] == 0xa0 {
+		i += 2 + int(tbs[i+1])
+	}
+	if tbs[i] != 0x02 || tbs[i+1]&0x80 != 0 || tbs[i+2] == 0 || tbs[i+2]&0x80 != 0 {
+		panic("reissueWithNegativeSerial: unexpected serial encoding")
+	}
+	tbs[i+2] |= 0x80
+	// signatureAlgorithm: the bytes between tbs and the signature BIT STRING of the original certificate
+	raw := leaf.Raw
+	j := 1
+	if raw[j]&0x80 != 0 {
+		j += int(raw[j]&0x7f) + 1
+	} else {
+		j++
+	}
+	j += len(leaf.RawTBSCertificate)
+	algLen := 2 + int(raw[j+1])
+	alg := raw[j : j+algLen]
+	var h crypto.Hash
+	switch leaf.SignatureAlgorithm {
+	case x509.ECDSAWithSHA256, x509.SHA256WithRSA:
+		h = crypto.SHA256
+	case x509.ECDSAWithSHA384, x509.SHA384WithRSA:
+		h = crypto.SHA384
+	case x509.ECDSAWithSHA512, x509.SHA512WithRSA:
+		h = crypto.SHA512
+	default:
+		panic("reissueWithNegativeSerial: signature algorithm " + leaf.SignatureAlgorithm.String())
+	}
+	hh := h.New()
+	hh.Write(tbs)
+	sig, err := ca.Key.Sign(rand.Reader, hh.Sum(nil), h)
+	must(err)
+	body := append(append(append([]byte{}, tbs...), alg...), derTLVpki(0x03, append([]byte{0}, sig...))...)
+	der := derTLVpki(0x30, body)
+	c, err := x509.ParseCertificate(der)
+	must(err)
+	if c.SerialNumber.Sign() >= 0 {
+		panic("reissueWithNegativeSerial: serial is not negative")
+	}
+	must(c.CheckSignatureFrom(ca.Cert))
+	return c
+}
+
+func derTLVpki(tag byte, content []byte) []byte {
+	n := len(content)
+	var hdr []byte
+	switch {
+	case n < 0x80:
+		hdr = []byte{tag, byte(n)}
+	case n < 0x100:
+		hdr = []byte{tag, 0x81, byte(n)}
+	default:
+		hdr = []byte{tag, 0x82, byte(n >> 8), byte(n)}
+	}
+	return append(hdr, content...)
+}
